@@ -263,7 +263,7 @@ def check(prop, tier):
         shutil.rmtree(work, ignore_errors=True)
     res.cov['exhaustive'] = True
     res.cov['rule'] = ('every edit script (Keep/Delete/Insert over 2 symbols plus no-final-newline variants) up to MaxOps ops / MaxChanges changes (TLC), '
-                       'x context width 0..MaxCtx x 10 header dialects x both directions x absent/empty variants; one evaluation = one parse+apply by the real library; '
+                       'x context width 0..MaxCtx x 12 header dialects (incl. doubled separators in the stripped part) x both directions x absent/empty variants; one evaluation = one parse+apply by the real library; '
                        'GNU diff output for the same file pairs is replayed too; a 2% sample is pushed by the real binary with 1 and 2 threads')
     res.assumptions += ['render.py renders hunks in the unified format faithfully (second producer GNU diff cross-checks this)',
                         'absence of a side is only demanded where the dialect can state it (/dev/null, git)']
